@@ -1,6 +1,7 @@
 import TapkeeVerif.Model.Util
 import TapkeeVerif.Model.RatFn
 import TapkeeVerif.Model.Tsne
+import TapkeeVerif.Model.TsneRun
 /-! Line-protocol driver for the t-SNE model (DESIGN §11, C17).  Each input line is a harness case line
 (`sqd`, `zm`, `gpd`, `gpk`, `sym`, `vps`, `exg`, `bhg`, `api`) extended by the implementation's observation
 fields prefixed with `o.` (`o.DD=…`, `o.P=…`, …).  The answer is one line of `key=verdict` tokens:
@@ -396,6 +397,105 @@ def doBhg (N D : Nat) (row col : Array Nat) (val y : Array Rat) (θ : Rat) (o : 
         cmpLists g.toList spec (maxR 1 (maxAbs spec) * (tol30 + M / two 44))
       s!"cmp={cmp} bh0={bh0}"
 
+/-! ### `TSNE::run`, observed through its progress log -/
+
+def eps9 : Rat := (4835703278458517 : Rat) / (4835703278458516698824704 : Rat)   -- the double nearest to 1e-9
+def fltMin : Rat := 1 / two 126
+
+structure Snap where
+  it : Nat
+  C : Rat
+  Y : Array Rat
+
+def parseSnaps (s : String) : Option (List Snap) :=
+  allSome ((splitNonEmpty s ";").map fun one =>
+    match one.splitOn "/" with
+    | [i, c, y] => match i.toNat?, parseRat c, ratsA y with
+      | some i, some c, some y => some ⟨i, c, y⟩
+      | _, _, _ => none
+    | _ => none)
+
+/-- exaggeration factor used by the GRADIENT of iteration `t` (the division happens at the end of iteration
+    `stopLyingIter`) -/
+def gradExag (t : Nat) : Rat :=
+  if Gen.TsneRun.stopLyingSimple && decide (Gen.TsneRun.stopLyingIter < (t : Int)) then
+    ofPair Gen.TsneRun.exaggeration / ofPair Gen.TsneRun.unExaggeration
+  else ofPair Gen.TsneRun.exaggeration
+
+def roundState (s : OptState Rat) : OptState Rat :=
+  ⟨s.Y.map rnd, s.uY.map rnd, s.gains.map rnd, s.momentum⟩
+
+def doRun (N D dim : Nat) (x g : Array Rat) (perp θ : Rat) (snapsS : Option String) : String :=
+  match snapsS >>= parseSnaps with
+  | none => "cmp=BAD:unparsable-observation dyn=BAD:unparsable-observation"
+  | some snaps =>
+    let X := Mat.materialize (maxNormalise (Mat.materialize (zeroMean (matOf N D x))))
+    let lnPerp := lnR perp
+    let xn : Array Rat := (flat X).toArray
+    let cmpC (it : Nat) (C Cm : Rat) : Option String :=
+      if absR (C - Cm) ≤ tol30 * (1 + absR Cm) then none else some s!"it={it}:impl={showRat C}:model={showRat (rnd Cm)}"
+    let close (a b : Array Rat) (tol : Rat) : Bool :=
+      a.size == b.size && (List.range a.size).all fun i => decide (absR (a.getD i 0 - b.getD i 0) ≤ tol)
+    let t1 := (snaps.map (·.it)).foldl min 1000000
+    let yTol (y : Array Rat) : Rat := maxR 1 (maxAbs y.toList) / two 20
+    if θ = 0 then
+      let DD := Mat.materialize (sqDist X)
+      let Pc := Mat.materialize (gaussianPerplexityDense expR lnR dblMin lnPerp tol1em5 DD)
+      let P := Mat.materialize (jointDenseAsWritten Pc)
+      let bad := snaps.findSome? fun sn =>
+        let Pm : Mat N N Rat := Mat.materialize fun n m => P n m * exaggerationAt sn.it
+        cmpC sn.it sn.C (evaluateErrorDense lnR dblMin eps9 Pm (matOf N dim sn.Y))
+      -- the optimiser, replayed from the same Gaussian stream up to the first snapshot (rounded to 2⁻¹²⁸ per iteration)
+      let fin := (List.range (t1 + 1)).foldl (fun (s : OptState Rat) t =>
+        let Pm : Mat N N Rat := Mat.materialize fun n m => P n m * gradExag t
+        let dC := (flat (exactGradient Pm (matOf N dim s.Y))).toArray
+        roundState (updateStep N dim dC { s with momentum := momentumAt t })) (initState g)
+      let dyn := match snaps.find? (·.it == t1) with
+        | none => "skip"
+        | some sn => if t1 > 60 then "skip" else if close fin.Y sn.Y (yTol sn.Y) then "ok" else
+            s!"BAD:it={t1}:impl={String.intercalate "," (sn.Y.toList.map showRat)}:model={String.intercalate "," (fin.Y.toList.map fun v => showRat (rnd v))}"
+      s!"cmp={match bad with | none => s!"ok:E0:A{snaps.length}" | some b => "BAD:" ++ b} dyn={dyn}"
+    else
+      let Kn := neighbourCount perp.num.toNat perp.den
+      let coords (i : Nat) : List Rat := (List.range D).map fun d => xn.getD (i * D + d) 0
+      -- the K nearest others of every sample (distance ties at the cut make the neighbour set ambiguous: skipped)
+      let rows := (List.range N).map fun n =>
+        let others := ((List.range N).filter (· ≠ n)).map fun m => (m, sqDistance (coords n) (coords m))
+        let sorted := others.mergeSort fun a b => decide (a.2 ≤ b.2)
+        let nb := sorted.take Kn
+        let tie := match sorted[Kn - 1]?, sorted[Kn]? with
+          | some a, some b => decide (a.2 = b.2)
+          | _, _ => false
+        let distA := (nb.map fun e => kernelDistance (vpDistance sqrtR (coords n) (coords e.1))).toArray
+        let dist : Fin Kn → Rat := fun m => distA.getD m.1 0
+        let vals := (List.finRange Kn).map (gaussianRowKnn expR lnR dblMin lnPerp tol1em5 dist)
+        (nb.map (·.1), vals, tie || decide (nb.length ≠ Kn))
+      if rows.any (·.2.2) then "cmp=skip:neighbour-tie dyn=skip" else
+      let c0 : Csr Rat := ⟨((List.range (N + 1)).map (· * Kn)).toArray, (rows.flatMap (·.1)).toArray, (rows.flatMap (·.2.1)).toArray⟩
+      match jointCsrAsWritten N c0 with
+      | .error e => s!"cmp=model-{showErr e} dyn=skip"
+      | .ok cj =>
+        let scaled (f : Rat) : Csr Rat := { cj with valP := cj.valP.map (· * f) }
+        let fuelOf (y : Array Rat) : Nat :=
+          let pts := (List.range N).map fun n => (y.getD (2 * n) 0, y.getD (2 * n + 1) 0)
+          QuadTree.fuelBound (QuadTree.rootCell eps1em5 pts) pts + 2
+        let bad := snaps.findSome? fun sn =>
+          match evaluateErrorBH lnR fltMin eps1em5 θ (fuelOf sn.Y) N (scaled (exaggerationAt sn.it)) sn.Y with
+          | .error e => some s!"it={sn.it}:model-{showErr e}"
+          | .ok Cm => cmpC sn.it sn.C Cm
+        let fin := (List.range (t1 + 1)).foldl (fun (s : Option (OptState Rat)) t =>
+          match s with
+          | none => none
+          | some s =>
+            match bhGradient (fuelOf s.Y) eps1em5 θ N dim (scaled (gradExag t)) s.Y with
+            | .error _ => none
+            | .ok dC => some (roundState (updateStep N dim dC { s with momentum := momentumAt t }))) (some (initState g))
+        let dyn := match snaps.find? (·.it == t1), fin with
+          | some sn, some fs => if t1 > 60 || dim ≠ 2 then "skip" else if close fs.Y sn.Y (yTol sn.Y) then "ok" else
+              s!"BAD:it={t1}:impl={String.intercalate "," (sn.Y.toList.map showRat)}:model={String.intercalate "," (fs.Y.toList.map fun v => showRat (rnd v))}"
+          | _, _ => "skip"
+        s!"cmp={match bad with | none => s!"ok:E0:A{snaps.length}" | some b => "BAD:" ++ b} dyn={dyn} K={Kn}"
+
 /-! ### public API smoke (test level) -/
 def doApi (N dim : Nat) (labels : Array Nat) (o : Option (Array Rat)) : String :=
   match o with
@@ -453,6 +553,9 @@ def answer (line : String) : String :=
   | "bhg" => match nats "row", rats "Y", field? fs "theta" >>= parseRat with
     | some r, some y, some θ => doBhg N D r ((nats "col").getD #[]) ((rats "val").getD #[]) y θ (rats "o.dC")
     | _, _, _ => "bad-case"
+  | "run" => match rats "X", rats "g", field? fs "perp" >>= parseRat, field? fs "theta" >>= parseRat with
+    | some x, some g, some perp, some θ => doRun N D (nat "dim") x g perp θ (field? fs "o.snaps")
+    | _, _, _, _ => "bad-case"
   | "api" => doApi N (nat "dim") ((nats "labels").getD #[]) (rats "o.Y")
   | _ => "bad-topic"
 
